@@ -225,9 +225,9 @@ func runRaw(c *rawkv.Client, o rawOp) string {
 
 // ---- txn workload ----
 type txnStep struct {
-	kind string // set del get iter riter
+	kind  string // set del get iter riter
 	k, k2 []byte
-	v    []byte
+	v     []byte
 }
 type txnCase struct{ steps []txnStep }
 
